@@ -611,7 +611,105 @@ class ConnSim(Sim):
         return out
 
 
+def run_twins(sc):
+    """Two (or three) peer connections with the SAME identity (host, port, user, type, direction) registered at the same time; they are
+    closed in the given order.  After every close: each connection object is in Network.peer_connections iff it is open.
+    sc = {'how': 'out'|'in', 'typ', 'n', 'close_order': [indices], 'via': 'disc'|'eof'}"""
+    from aioslsk.network.connection import CloseReason
+    from aioslsk.protocol.messages import PeerInit
+    sim = Sim()
+    try:
+        n = sim.network
+        eps, conns = [], []
+        if sc['how'] == 'out':
+            for k in range(sc['n']):
+                sim.spawn(n._make_direct_connection(10 + k, 'peer', sc['typ'], '10.0.0.9', 40000, False))
+            sim.settle()
+            for k in range(sc['n']):
+                ep = sim.endpoint()
+                eps.append(ep)
+                sim.resolve_connect(ep)
+            sim.settle()
+        else:
+            sim.loop.run_coro(n.connect_listening_ports())
+            sim.recs.clear()
+            sim.order.clear()
+            for k in range(sc['n']):
+                ep = sim.net.incoming(60000, peername=('10.0.0.7', 41000))
+                sim.tasks.append(sim.net.accept_tasks[-1])
+                eps.append(ep)
+                ep.feed(PeerInit.Request('peer', sc['typ'], 3).serialize())
+            sim.settle()
+        # the connection objects in creation order (= registration order)
+        for ep in eps:
+            c = [r.conn for r in sim.order if getattr(r.conn, '_writer', None) is ep.writer]
+            conns.append(c[0] if c else None)
+        steps = []
+
+        def snap():
+            out = []
+            for c in conns:
+                if c is None:
+                    out.append(None)
+                    continue
+                w = getattr(c, '_writer', None)
+                out.append({'state': c.state.name, 'registered': sim.in_registry(c), 'open': w is not None and not w.is_closing()})
+            return out
+        steps.append(snap())
+        for i in sc['close_order']:
+            if conns[i] is None:
+                continue
+            if sc['via'] == 'eof':
+                eps[i].feed_eof()
+            else:
+                sim.spawn(conns[i].disconnect(CloseReason.REQUESTED))
+            sim.settle()
+            steps.append(snap())
+        return {'steps': steps, 'registry_size': len(n.peer_connections), 'reported': [list(sim.rec(c).reported) if c is not None else None for c in conns]}
+    finally:
+        sim.close()
+
+
+class logging_enabled:
+    """Run with the library's logging enabled down to DEBUG into a null handler (the checks normally run with logging disabled,
+    so the formatting of log records -- log_utils.ConnectionLoggerAdapter -- would never execute)"""
+
+    def __init__(self, on=True):
+        self.on = on
+
+    def __enter__(self):
+        import logging
+        if not self.on:
+            return self
+        self.lg = logging.getLogger('aioslsk')
+        self.saved = (logging.root.manager.disable, self.lg.level, self.lg.propagate, list(self.lg.handlers))
+        logging.disable(logging.NOTSET)
+
+        class Fmt(logging.Handler):
+            def emit(self, record):
+                record.getMessage()        # format the record like a real handler does; errors propagate like with raiseExceptions
+        self.h = Fmt()
+        self.lg.handlers = [self.h]
+        self.lg.setLevel(logging.DEBUG)
+        self.lg.propagate = False
+        return self
+
+    def __exit__(self, *exc):
+        import logging
+        if self.on:
+            logging.disable(self.saved[0])
+            self.lg.setLevel(self.saved[1])
+            self.lg.propagate = self.saved[2]
+            self.lg.handlers = self.saved[3]
+        return False
+
+
 def run_scenario(sc):
+    with logging_enabled(bool(sc.get('logging'))):
+        return _run_scenario(sc)
+
+
+def _run_scenario(sc):
     """sc = {'kind','obf','typ','wch','acts'} -> result dict (implementation side) incl. 'events': per action
     the model events it stands for."""
     sim = ConnSim(sc['kind'], obf=sc.get('obf', False), typ=sc.get('typ', 'P'), wc_hang=sc.get('wch', False), wc_instant=sc.get('wci', False))
